@@ -53,13 +53,14 @@ inductive Node where
   /-- Statement (name 'statement') -/
   | stmt (pos : Int) (code : Node)
   /-- CallFunction -/
-  | callFn (name : Name) (pos : Int) (params : Node) (useParen inTell withResult : Bool)
+  | callFn (name : Name) (pos : Int) (params : Node) (useParen inTell withResult : Bool) (receiver : Node)
   /-- CallMethod -/
   | callMethod (name : Name) (pos : Int) (obj params : Node)
   /-- RepeatOperation (name 'repeat'); `type` ∈ while / for / for_in; `sign` '+' / '-' / ''.
       Python's `ro.end` is the very object `ro.condition.right` (set by loop_detect, never reassigned), so it is not
       stored: see `Node.repeatEnd`. -/
   | repeat_ (pos endPos : Int) (cond : Node) (stmts : List Node) (type : Str) (start : Node) (varname : Name) (sign : Str)
+      (loopVar : Node)
   /-- IfThenOperation (name 'if-then') -/
   | ifThen (pos : Int) (cond : Node) (ifs elses : List Node)
   /-- JumpOperation (name 'jump') -/
@@ -67,7 +68,7 @@ inductive Node where
   /-- JzOperation (name 'jz') -/
   | jz (pos : Int) (cond : Node) (addr : Int)
   /-- WindowTellOperation (name 'tell') -/
-  | tell (pos : Int) (operand : Node) (stmts : List Node)
+  | tell (pos : Int) (operand : Node) (stmts : List Node) (closed : Bool)
   deriving Repr, Inhabited
 
 /-- class identity for `isinstance` / `__eq__` (DefinedPropertyName is the only proper subclass of a non-base class) -/
@@ -145,13 +146,13 @@ def Node.pos : Node → Int
   | .toList p _ => p
   | .toDict p _ => p
   | .stmt p _ => p
-  | .callFn _ p _ _ _ _ => p
+  | .callFn _ p _ _ _ _ _ => p
   | .callMethod _ p _ _ => p
   | .repeat_ p .. => p
   | .ifThen p .. => p
   | .jump p _ => p
   | .jz p _ _ => p
-  | .tell p _ _ => p
+  | .tell p _ _ _ => p
 
 /-- `a == b` as implemented by `Node.__eq__` / `GlobalVariable.__eq__`.
     `is_same_class(other, self)` is `isinstance(other, type(self))`; CPython first tries the right operand's `__eq__`
@@ -193,7 +194,7 @@ def Node.symName? : Node → Option Name
 
 /-- CallFunction.with_result (False for every other class) -/
 def Node.withResult : Node → Bool
-  | .callFn _ _ _ _ _ wr => wr
+  | .callFn _ _ _ _ _ wr _ => wr
   | _ => false
 
 /-- `isinstance(x, LocalVariable) and x.name == 'menus'` -/
@@ -242,13 +243,13 @@ mutual
     | .toList _ x => 1 + x.weight
     | .toDict _ x => 1 + x.weight
     | .stmt _ x => 1 + x.weight
-    | .callFn _ _ p _ _ _ => 1 + p.weight
+    | .callFn _ _ p _ _ _ r => 1 + p.weight + r.weight
     | .callMethod _ _ a b => 1 + a.weight + b.weight
-    | .repeat_ _ _ c l _ a _ _ => 1 + c.weight + weightList l + a.weight
+    | .repeat_ _ _ c l _ a _ _ v => 1 + c.weight + weightList l + a.weight + v.weight
     | .ifThen _ c a b => 1 + c.weight + weightList a + weightList b
     | .jump .. => 1
     | .jz _ c _ => 1 + c.weight
-    | .tell _ x l => 1 + x.weight + weightList l
+    | .tell _ x l _ => 1 + x.weight + weightList l
   def weightList : List Node → Nat
     | [] => 0
     | x :: xs => x.weight + weightList xs
